@@ -44,7 +44,7 @@ MANIFEST = dict(
     text='PARTIAL. Proof (Lean 4): sign flip (argmin of -L = argmax of L, negated derivatives; C07.neg_flip, neg_flip_gradient); under the recorded '
     'optimiser contract OptContract the results of estimate/quick_estimate are consistent (logLike = L(x*), g/H/BHHH evaluated at x*, final >= initial, '
     'bound-aware => x* in the box; C07.result_consistent, result_consistent_quick); the finite-difference Hessian fallback is dead code (fd_fallback_dead); '
-    'write-back: free parameters take the estimates, fixed ones untouched (C07.writeback); option plumbing as a decision table for every algorithm name, '
+    'write-back: free parameters take the estimates (guarded assignment of Beta.change_init_values modelled; C07.writeback, writeback_real), fixed ones untouched; option plumbing as a decision table for every algorithm name, '
     "'automatic' and unknown names (algorithm_resolution, bound_aware_table, options_plumbing_*); over R: first-order inequality of concave functions on the box, "
     'a KKT point is a global maximum, two KKT points have the same value (concave_first_order_box, kkt_global_max, algorithms_agree, gap_bound; Mathlib convexity, '
     'restriction to a segment). Tie: real estimate()/quick_estimate() runs on generated concave problems x all algorithm names x bound configurations; '
@@ -79,7 +79,7 @@ RULE = (
     'non-trivial = at least 2 free parameters or an active/one-sided bound or a fixed parameter; or one session = one sequence of public operations '
     'on one BIOGEME object starting with an estimation (non-trivial = at least one later operation)'
 )
-TOL = 'sign flip, write-back, option values: exact; recomputed L/g/H/BHHH: rel 1e-9; bounds: 1e-10; KKT: the algorithm\'s tolerance (x1.001); first-order inequality: 1e-9*(1+|L|) + 1e-9*|g.dx|; sessions: L rel 1e-11, g/H/BHHH 1e-9*max(1,|.|max) against independent objects, estimates / starting values / bootstrap rows exact'
+TOL = 'sign flip, option values: exact; write-back: exact as numbers in the oracle (+0.0 = -0.0), bit for bit against the model (which contains the guard of Beta.change_init_values); recomputed L/g/H/BHHH: rel 1e-9; bounds: 1e-10; KKT: the algorithm\'s tolerance (x1.001); first-order inequality: 1e-9*(1+|L|) + 1e-9*|g.dx|; sessions: L rel 1e-11, g/H/BHHH 1e-9*max(1,|.|max) against independent objects, estimates / starting values / bootstrap rows exact'
 
 NAME_POOL = ['b10', 'b2', 'alpha', 'zeta', 'B_TIME', 'asc', 'mu', 'Z']
 TOML = """[Specification]
@@ -422,9 +422,10 @@ def oracle(case, out):
             if a['fixed']:
                 if f2b(a['value']) != f2b(b['value']):
                     bad.append((f'fixed parameter {a["name"]} changed by the estimation', a['value'], b['value'], 'BIOGEME.estimate (write-back)'))
-            elif f2b(a['value']) != f2b(est[a['name']]):
+            elif not same_value(a['value'], est[a['name']]):
                 bad.append((f'starting value of {a["name"]} after estimation is not its estimate', a['value'], est[a['name']], 'BIOGEME.estimate (write-back)'))
-        if {k: f2b(v) for k, v in out['get_beta_values'].items()} != {k: f2b(v) for k, v in est.items()}:
+        gbv = out['get_beta_values']
+        if sorted(gbv) != sorted(est) or any(not same_value(gbv[k], est[k]) for k in est):
             bad.append(('get_beta_values() after estimation is not the estimates by name', out['get_beta_values'], est, 'BIOGEME.estimate (write-back)'))
     # sign flip of the function handed to the optimiser
     ng = out['neg']
@@ -433,6 +434,13 @@ def oracle(case, out):
             and ng['fgh_h'] == [[-v for v in r] for r in ng['H']]):
         bad.append(('the function handed to the optimiser is not minus the likelihood (value, gradient, Hessian)', ng, 'negated', 'NegativeLikelihood'))
     return bad
+
+
+def same_value(a, b):
+    """equality of two reported numbers as numbers (the statement says "equal"): exact, no tolerance;
+    +0.0 and -0.0 are the same number (Beta.change_init_values keeps the object it holds when
+    `value != self.initValue` is false, so a Beta at +0.0 whose estimate is -0.0 stays +0.0)"""
+    return a is not None and b is not None and float(a) == float(b)
 
 
 def in_box(x, lbub, tol=1e-10):
@@ -1095,6 +1103,7 @@ def oracle_session(case, out):
     before = {p['name']: p for p in out['before']}
     latest = None
     user_values = {}
+    told = set()   # one report per parameter: the first step after which the clause fails
     for i, st in enumerate(out['steps']):
         kind = st['op']['op']
         if kind == 'estimate':
@@ -1103,8 +1112,11 @@ def oracle_session(case, out):
         elif kind == 'change':
             user_values.update({k: float(v) for k, v in st['op']['vals'].items()})
         for p in st['params']:
+            if p['name'] in told:
+                continue
             if p['fixed']:
                 if f2b(p['value']) != f2b(before[p['name']]['value']):
+                    told.add(p['name'])
                     bad.append((f'fixed parameter {p["name"]} changed after {describe_step(out, i)}', p['value'], before[p['name']]['value'], 'BIOGEME.estimate (write-back)'))
                 continue
             if p['name'] in user_values:
@@ -1114,7 +1126,8 @@ def oracle_session(case, out):
                 want, why = dict(zip(rd['names'], rd['x'])).get(p['name']), 'its estimate'
             else:
                 continue
-            if want is None or f2b(p['value']) != f2b(want):
+            if not same_value(p['value'], want):
+                told.add(p['name'])
                 bad.append((f'starting value of {p["name"]} after {describe_step(out, i)} is not {why}', p['value'], want, 'BIOGEME.estimate (write-back)'))
     # evaluations at the estimates through the public entry points, by the object that estimated
     for i, st in enumerate(out['steps']):
@@ -1305,7 +1318,13 @@ def run_sessions(ctx, res, rng, problem, configs, tagc, algos, n):
             return
 
 
-CORPUS = []
+# minimised past failures of the check itself; they run first
+CORPUS = [
+    # start +0.0, active lower bound -0.0, estimate -0.0: `Beta.change_init_values` keeps the +0.0 it holds
+    # (`value != self.initValue` is false). Equal as numbers - the clause holds; an oracle comparing bit
+    # patterns raised a false alarm here (thorough tier, seed 0), and the model lacked the guard.
+    {"kind": "session", "problem": {"id": "corpus-negzero", "family": "mnl", "K": 1, "names": ["mu"], "rows": [[-0.034, 2], [-0.787, 2], [-0.47, 1], [-1.474, 3], [0.868, 2], [-0.017, 1], [-0.941, 3], [1.718, 2], [0.153, 3], [0.409, 1], [0.916, 3], [-0.879, 1], [-1.345, 1], [0.167, 3], [0.139, 2]], "fixed": None}, "x0": {"mu": 0.0}, "bounds": {"mu": [-0.0, 3.7]}, "bcfg": "active", "algo": "automatic", "cfg": {"second_derivatives": 1.0, "tolerance": 1e-05, "steptol": 1e-05, "max_iterations": 200, "infeasible_cg": False, "initial_radius": 0.5, "enlarging_factor": 5.0, "dogleg": True}, "boot": 0, "ops": [{"op": "eval", "at": "estimates", "scaled": False, "hessian": True, "bhhh": False}, {"op": "quick"}], "np_seed": 911598803},
+]
 
 
 def run_problem(ctx, res, rng, problem, tagc, algos, bcfgs, n_quick):
@@ -1371,7 +1390,9 @@ def check(ctx) -> Result:
         res.diverge('names of optimization.algorithms', {'kind': 'table'}, sorted(ALGOS), sorted(names), where='optimization.algorithms')
     tagc = [0, 0]
     with core.scratch(TOML):
-        n_prob = ctx.n(8, 150)
+        for c in CORPUS:
+            check_session(ctx, res, _case_from_json(copy.deepcopy(c)), tagc)
+        n_prob = ctx.n(8, 130)
         for pid in range(n_prob):
             problem = gen_problem(rng, pid)
             if ctx.quick:
